@@ -214,7 +214,7 @@ class Generator(Curve, Point):
             gen_k = deterministic_generate_k
         n = self._order
         k = gen_k(n, secret_exponent, val)  # type: ignore[arg-type]
-        while True:
+        for _ in range(1, n):  # type: ignore[arg-type]
             p1 = k * self
             r = p1[0] % n  # type: ignore[operator]
             s = (self.inverse(k) * (val + (secret_exponent * r) % n)) % n  # type: ignore[operator]
@@ -223,7 +223,9 @@ class Generator(Curve, Point):
                 if p1[0] > n:  # type: ignore[operator]
                     recid += 2
                 return r, s, recid
-            k += 1
+            # try the next nonce in [1, n-1]
+            k = k % (n - 1) + 1  # type: ignore[operator]
+        raise ValueError("no nonce yields a signature")
 
     def sign(
         self,
